@@ -404,7 +404,7 @@ Proof.
   intros Hd H. unfold encrypt in H. apply bind_ok_inv in H. destruct H as (k & Hk & H).
   rewrite (derive_spec (ecies_std E) (ecies_std_laws E) a pk B Hd) in Hk.
   cbn [eo_ec ecies_std] in Hk.
-  unfold bie1_encrypt. destruct (ec_is_inf E (ec_smul E a B)); [discriminate|].
+  unfold bie1_encrypt, bie1_seal. destruct (ec_is_inf E (ec_smul E a B)); [discriminate|].
   inversion Hk; subst k; clear Hk.
   unfold encrypt_with in H. apply bind_ok_inv in H. destruct H as (ct & Hct & H). inversion H; subst c; clear H.
   unfold keys_of, key_schedule, compressed in *. cbn [eo_sha512 eo_hmac256 eo_cbc_enc eo_ec ecies_std ck_iv ck_ke ck_km] in *.
@@ -463,7 +463,7 @@ Theorem decrypt_eq_bie1 E b pk A hp s :
   ec_dec E pk = Some A ->
   (do c <- from_bytes (ecies_std E) s hp; decrypt (ecies_std E) c b pk) = of_option (bie1_decrypt E b A hp s).
 Proof.
-  intros Hd. unfold bie1_decrypt, decrypt.
+  intros Hd. unfold bie1_decrypt, bie1_open, decrypt.
   rewrite (derive_spec (ecies_std E) (ecies_std_laws E) b pk A Hd). cbn [eo_ec ecies_std].
   destruct (ec_is_inf E (ec_smul E b A)) eqn:Ei.
   { cbn [of_option]. pose proof (from_bytes_total (ecies_std E) s hp) as Hn.
